@@ -1086,6 +1086,13 @@ func (p *Pointer) Convert(typ Type) (Item, error) {
 	}
 }
 
+// IsFromScript tells whether the pointer was created by the given script. The
+// hash is not enough for that: the scripts of a deployed contract before and
+// after an update run under the same (contract) hash.
+func (p *Pointer) IsFromScript(script []byte) bool {
+	return bytes.Equal(p.script, script)
+}
+
 // ScriptHash returns the pointer item hash.
 func (p *Pointer) ScriptHash() util.Uint160 {
 	return p.hash
